@@ -37,6 +37,14 @@ KL = 'kronecker_factored_lattice_lib'
 
 
 def run(prog, res):
+  from ..rules import staleloop as _sl
+  _sl.check(prog, res, [f for f in prog.module('lattice_lib').all_functions()
+                        if f.parent is None])
+  res.floor('X6', 30)
+  from ..rules import guards as _g
+  for q in ('lattice_lib.compute_interpolation_weights', 'lattice_lib.evaluate_with_simplex_interpolation', 'kronecker_factored_lattice_lib.evaluate_with_hypercube_interpolation'):
+    _g.check_clip_paths(prog, res, prog.function(q))
+  res.floor('X5', 3)
   from ..rules import dtypes, validate
   dtypes.selfcheck()
   _cl = validate.call_closure(prog, [prog.function(q) for q in ('kronecker_factored_lattice_layer.KroneckerFactoredLattice.call', 'pwl_calibration_layer.PWLCalibration.call', 'categorical_calibration_layer.CategoricalCalibration.call', 'lattice_layer.Lattice.call')],
@@ -221,6 +229,22 @@ def _g3(prog, res):
             if isinstance(x, tuple) and x[0] == 'count':
               return Z(1 if x[1] == c or (x[1] >= 2 and c >= 2) else 0)
             raise AnalysisError('grad_fn: equal(%s)' % norm_text(e))
+          if op in ('greater', 'greater_equal', 'less', 'less_equal',
+                    'not_equal'):
+            x, c = val(a[0]), const_value(a[1])
+            if isinstance(x, tuple) and x[0] == 'count' and isinstance(
+                c, (int, float)):
+              # the abstract count 2 stands for "two or more"
+              cnt = x[1]
+              if cnt >= 2 and c >= 2 and op in ('less', 'less_equal',
+                                                'not_equal', 'greater'):
+                raise AnalysisError('grad_fn: %s cannot be decided for "two or '
+                                    'more" zeros' % norm_text(e))
+              r = {'greater': cnt > c, 'greater_equal': cnt >= c,
+                   'less': cnt < c, 'less_equal': cnt <= c,
+                   'not_equal': cnt != c}[op]
+              return Z(1 if r else 0)
+            raise AnalysisError('grad_fn: %s(%s)' % (op, norm_text(e)))
           if op == 'reduce_sum':
             x = a[0]
             if dotted(x) == 'is_zero':
